@@ -126,7 +126,7 @@ prop("C18", engine="netsim", level="exploration", technique="deterministic simul
      note="")
 prop("C20", engine="netsim", level="exploration", technique="deterministic simulation with statement-level preemption: every library mutex, RWMutex, Once, WaitGroup, channel operation and goroutine start is a scheduling point owned by the simulator; wait-for-graph oracle at quiescence (every API call and every transport / network callback returned; no task parked on a library lock; Manager.Stop with active transfers returns and leaves nothing behind a lock); panics",
      rule=NETRULE + "C20 strata mix all application operations concurrently (opens, closes, pauses, resumes, restarts, vouchers, validation updates from subscriber callbacks) and, in the stop stratum, call Manager.Stop on one node at a tape-chosen scheduling step or instant while transfers are active, half of the time followed by a new manager on the same datastore; non-trivial = every run",
-     probes=["nontrivial", "both-ongoing-at-quiescence"], real=REAL_NET, stubs=STUB_NET, assumptions=ASSUME + ["data races proper (unsynchronised memory access) are outside a baton scheduler's reach: only their deadlock/lost-update consequences at statement granularity are; see DESIGN for the -race secondary"],
+     probes=["nontrivial"], real=REAL_NET, stubs=STUB_NET, assumptions=ASSUME + ["data races proper (unsynchronised memory access) are outside a baton scheduler's reach: only their deadlock/lost-update consequences at statement granularity are; see DESIGN for the -race secondary"],
      text="At quiescence after the settle phase every tracked API call and every callback the environment delivered (stream handler, graphsync hooks and listeners) has returned - otherwise the wait-for chain is followed through lock holders, state-machine waits and errgroup children to its root, which names the violation; Manager.Stop returns within two simulated minutes and one minute later no task of that node waits for a library lock; no library panic.",
      note="deadlock freedom and call completion are decided; data-race freedom in the Go memory-model sense is not decidable by this technique (said in DESIGN)")
 
